@@ -87,6 +87,8 @@ def c01(scn, run):
     if run["meta"].get("stop") == "AUTOMATIC":
         clos = set()
         for (p, n), inst in g.items():
+            if p < scn.get("startcp", scn["icp"]):
+                continue
             exprs = inst["prereqs"]
             if all(S.eval_c(ex, lambda a: (a["id"][0], a["id"][1], a["out"]) in done) for ex in exprs):
                 # reachable only if parentless or some parent output completed
@@ -481,5 +483,57 @@ def c45(scn, run):
     return None
 
 
-ORACLES = {"C45": c45, "C06": c06, "C19": c19, "C43": c43, "C01": c01, "C02": c02, "C03": c03, "C04": c04, "C07": c07, "C09": c09, "C11": c11,
+def c31(scn, run):
+    """sequential tasks: never two active instances; submitted only after the previous instance succeeded"""
+    seq = set(scn.get("sequential", []))
+    if not seq:
+        return None
+    g = S.instance_graph(scn)
+    start = scn.get("startcp", scn["icp"])
+    succeeded = set()
+    manual = {tuple(x["id"]) for x in run["trace"] if x["e"] == "state" and x.get("manual")}
+    for e in _tracked(run["trace"]):
+        if e["e"] == "output" and "succeeded" in e["out"]:
+            succeeded.add(tuple(e["id"]))
+        elif e["e"] == "submit":
+            for p, n, sn in e["jobs"]:
+                if n in seq and (p, n) not in manual:
+                    prev = [q for q in g["seqs"][n] if q < p]
+                    if prev and max(prev) >= start and (max(prev), n) not in succeeded:
+                        return f"sequential task {p}/{n} submitted before its previous instance {max(prev)}/{n} succeeded"
+        elif e["e"] == "tick_end":
+            act = {}
+            for t in e["snap"]["tasks"]:
+                if t["id"][1] in seq and t["status"] in ACTIVE:
+                    act.setdefault(t["id"][1], []).append(t["id"][0])
+            for n, ps in act.items():
+                if len(ps) > 1:
+                    return f"instances {sorted(ps)} of sequential task {n} are active at the same time"
+    return None
+
+
+def c46(scn, run):
+    """warm start: nothing before the start point runs (unless manually triggered); dependencies on
+    instances before the start point count as satisfied"""
+    start = scn.get("startcp")
+    if start is None:
+        return None
+    manual = {tuple(x["id"]) for x in run["trace"] if x["e"] == "state" and x.get("manual")}
+    for e in _tracked(run["trace"]):
+        if e["e"] == "add" and e["t"]["id"][0] < start and tuple(e["t"]["id"]) not in manual:
+            return f"{e['t']['id']} entered the pool before the start point {start}"
+        if e["e"] == "submit":
+            for p, n, sn in e["jobs"]:
+                if p < start and (p, n) not in manual:
+                    return f"{p}/{n} submitted before the start point {start}"
+        if e["e"] in ("spawn",):
+            t = e["t"]
+            for pre in t["prereqs"]:
+                for k, v in pre:
+                    if k[0] < start <= t["id"][0] and k[0] != t["id"][0] and not v:
+                        return f"{t['id']}: dependency on {k} before the start point is not satisfied"
+    return None
+
+
+ORACLES = {"C31": c31, "C46": c46, "C45": c45, "C06": c06, "C19": c19, "C43": c43, "C01": c01, "C02": c02, "C03": c03, "C04": c04, "C07": c07, "C09": c09, "C11": c11,
            "C25": c25, "C26": c26}
